@@ -1107,7 +1107,13 @@ class CHECK(core.Check):
                "C12_tree_prefix_maps_ok), members are distinct objects, every child is a clone whose main frame is the frame "
                "that lists it. A clone tree and the original's tree (or two clone trees) in one common situation take every "
                "entry point to one common situation with the same events from the same members. NOT proved: trees that "
-               "change at run time (rear / raze inside the tree), members that address shares of other members "
+               "change at run time (rear / raze inside the tree; what IS proved about run-time rear / raze is the round trip "
+               "C12_rear_is_create_then_quiet_partial / C12_rear_raze_roundtrip_partial / C12_rear_razer_roundtrip_partial / "
+               "C12_second_rear_like_first_partial for a "
+               "moot without clone clauses and aux links whose clone runs without auxiliaries: rear = create + steps that "
+               "touch only the clone and the store, and after the prune step the registry, the class pointers and every "
+               "earlier object - the rearing framer's aux list and tag table included - are exactly those before the "
+               "rear), members that address shares of other members "
                "(`of framer main`: the joint map is then not injective) or shared absolute shares, plain ORIGINAL "
                "auxiliaries below a clone (the relation fixes `original = false` for children); these are tied to the code "
                "by the correspondence and the oracles O1 / O4 only. Also not proved: that Act.resolvePath on the TEXT of a "
@@ -1156,7 +1162,11 @@ class CHECK(core.Check):
                   "copy of the original flagged clone+insular+razeable, fixed main frame, appended to the frame, nothing else "
                   "touched); raze - C12_raze_selects_only_razeable_insular, C12_raze_all_first_last, C12_unregister_frees_name, "
                   "C12_pruned_name_freed, C12_freed_name_reusable, and PARTIAL (clones without auxiliaries below them) "
-                  "C12_raze_leaf_clones_partial (exact effect on the whole house), C12_prune_removes_all_nested_clones_partial, C12_prune_leaf_clone_partial; behaviour "
+                  "C12_raze_leaf_clones_partial (exact effect on the whole house), C12_prune_removes_all_nested_clones_partial, C12_prune_leaf_clone_partial; "
+                  "rear -> run -> raze round trip (PARTIAL: moot without clone clauses / aux links, clone without auxiliaries) - "
+                  "C12_rear_is_create_then_quiet_partial, C12_rear_raze_roundtrip_partial, C12_rear_razer_roundtrip_partial "
+                  "(registry, class pointers and every earlier object exactly as before the rear), "
+                  "C12_second_rear_like_first_partial (same tag, name, definition, flags, main frame; new identity); behaviour "
                   "(PARTIAL: static trees of framers to any depth, incl. aux-done needs) - C12_tree_refines_partial, "
                   "C12_tree_refines_checkStart_partial, C12_clone_tree_runs_like_original_partial, C12_tree_same_events, "
                   "C12_tree_prefix_maps_ok; (PARTIAL: single framer objects, with frame conditions) - C12_leaf_refines_partial, "
